@@ -81,6 +81,16 @@ def check(ctx):
     n = check_pairs(ctx, pairs_for("C34"))
     ctx.count("twin_pairs", n)
     ctx.floor("twin_pairs", 5)
+    # ---------------- diag of a 2-d array: the block-diagonal shortcut needs SQUARE diagonal blocks
+    dg = mod.func("diag")
+    fast = [n for n in ast.walk(dg) if isinstance(n, ast.If) and unparse(n.test).startswith("k == 0 and ")]
+    ok = len(fast) == 1 and unparse(fast[0].test) == "k == 0 and v.chunks[0] == v.chunks[1]" and any(unparse(r.value).startswith("Array(graph, name, (v.chunks[0],)") for r in returns(fast[0]))
+    ctx.ob("ALG.diag.square-blocks", dg, "np.diag per diagonal block only when row and column chunks are identical; otherwise diagonal(v, k)", ok, "" if ok else "np.diag of a non-square block (i,i) does not hold the main-diagonal elements that fall into blocks (i,j), j != i")
+    # ---------------- fromfunction: func receives full coordinate grids like np.fromfunction
+    ff = mod.func("fromfunction")
+    mg = [c for c in calls(ff, "meshgrid")]
+    ok = len(mg) == 1 and kwarg(mg[0], "indexing") is not None and unparse(kwarg(mg[0], "indexing")) == "'ij'" and (kwarg(mg[0], "sparse") is None or unparse(kwarg(mg[0], "sparse")) == "False")
+    ctx.ob("ALG.fromfunction.dense-grids", ff, "coordinate arrays come from a dense meshgrid(..., indexing='ij')", ok, "" if ok else "sparse grids have extent 1 on the other axes: a func that does not use every coordinate returns blocks of the wrong shape")
 
 
 VARIANTS = [
